@@ -103,6 +103,14 @@ pub fn histories(p: u64, tier: Tier, heavy: bool) -> Vec<Vec<Action>> {
         Action::Reopen,
         tx(vec![OpSpec::put(&["x"], "again", &small), OpSpec::del(&["x"], "nope")]),
     ]);
+    // the empty key in a multi-leaf bucket (the first separator of its branch page is "")
+    {
+        let mut ops = vec![OpSpec::bucket("create", &[], "ek"), OpSpec::put(&["ek"], "", &third)];
+        for k in keys {
+            ops.push(OpSpec::put(&["ek"], k, &third));
+        }
+        out.push(vec![tx(ops), tx(vec![OpSpec::put(&["ek"], "k9", &third)]), Action::Reopen, tx(vec![OpSpec::put(&["ek"], "", &small), OpSpec::del(&["ek"], "k0")]), tx(vec![OpSpec::bucket("goc", &[], "other"), OpSpec::put(&["other"], "x", &small)])]);
+    }
     // edge sizes: empty key, key longer than a page, values of 0, 1 and 5 pages
     let longkey = format!("K*{}", f(11, 10));
     out.push(vec![
